@@ -4,7 +4,6 @@ NOTES = ('Contract-based deductive verification. ./check <id> extracts the ancho
          '2 = undecided (lost anchor, unsupported construct, solver gave up) and is never reported as a violation.')
 
 NOT_APPLICABLE = {
-    'C04': 'GameSpy 1/2 key-value and table parsing is str::split / HashMap<String,String> / str::parse code, GameSpy 3 data_to_map and parse_players_and_teams likewise: outside the Verus subset and beyond Kani (parse_players_and_teams on 10 symbolic bytes > 15 min). Proved elsewhere: GameSpy 3 framing, challenge, packet table (C08, C09 in U-GS3), first requests (C09), accessors (C15); three GameSpy 1 defects found while reading were fixed (DESIGN.md 4.1)',
     'C05': 'the Quake status parser is lines() / split / join / str::parse over a lossily decoded String: outside the Verus subset and beyond Kani for the same reason as C04. First requests are covered by C09; two Quake defects found while reading (player loop never entered, single-quote line panic) were fixed (DESIGN.md 4.1)',
     'C12': 'wall-clock bounds and kernel socket behaviour are outside what a function contract can state: std::net calls are foreign code to both Verus and Kani (DESIGN.md 3/C12)',
     'C19': 'property is about process stdout/exit status and third-party serializer grammars (serde_json, quick_xml, bson, hex, base64) built on trait objects and fmt; neither verifier reaches them (DESIGN.md 3/C19)',
@@ -40,6 +39,12 @@ TEXT = {
         'engine': 'verus',
         'level_text': 'PARTIAL: only the second sentence of the property is decided. Unbounded proof that the auto-detecting query returns the answer of the first variant that answers in the order Java, Bedrock, legacy 1.6, 1.4, beta 1.8 (Bedrock answers converted), and Err(AutoQuery) exactly when none answers; the dedicated module does the same with its default ports (25565, Bedrock 19132); VarInt and length-prefixed string framing used by the Java client are proved in U-VARINT. The first sentence (every status decodes exactly) is NOT decided by any check: those parsers are serde_json / str::split code outside both verifiers.',
         'level_note': 'Variant clients are uninterpreted functions of the address (deterministic server); response labelling and all status decoding are not covered (evidence.not_covered). A change inside java.rs / bedrock.rs / legacy_*.rs parsing is invisible to this check.',
+    },
+    'C04': {
+        'technique': 'Verus contracts on the real GameSpy 3 functions data_to_map (key/value block of a data packet), receive (framing), make_initial_handshake, send_data_request and get_server_packets_impl (packet table)',
+        'engine': 'verus',
+        'level_text': 'PARTIAL: GameSpy 3 only, and of it the transport-level part. Unbounded proof that a data packet body consisting of any number of key/value strings closed by an empty key decodes to exactly those pairs (a later duplicate key replacing the earlier) plus the untouched remainder, that reply framing (kind, session id) is checked and stripped, and that the packet table holds each packet under its id. NOT decided by any check: GameSpy 1, GameSpy 2, the player / team sections, the typed response fields and the unused-entries rule (str::split / parse / table code outside both verifiers).',
+        'level_note': 'A change in GameSpy 1 or 2, in parse_players_and_teams, in has_password or in the field extraction of the three query functions is invisible to this check; see evidence.not_covered.',
     },
     'C08': {
         'technique': 'Verus contract and loop invariants on the real ValveProtocol::receive (split-packet reassembly): ghost sequence of fragments, concatenation function, insertion-position invariant',
